@@ -97,7 +97,7 @@ def run(ctx):
 
     jobs, meta = [], []
     NJ = 6
-    CH = max(1, (len(res) + NJ - 1) // NJ)
+    CH = min(10000, max(1, (len(res) + NJ - 1) // NJ))   # longer list literals overflow coqc's stack
     for off in range(0, len(res), CH):
         chunk = res[off:off + CH]
         jobs.append(("res", PRELUDE + "Definition cases : list res_case := %s.\n" % vlib.coq_list(chunk, res_lit),
@@ -114,7 +114,7 @@ def run(ctx):
         return 20 * len(g) + sum(strs[i]["n"] for i in g) // 500 + (c0["spec"]["plen"] + sum(c0["pre"] or [])) // 100
 
     # pack the groups into at most 10 jobs of similar weight
-    NP = 10
+    NP = 10 if ctx.tier == "quick" else 40
     packs = [[] for _ in range(NP)]
     loads = [0] * NP
     for g in sorted(glist, key=weight, reverse=True):
